@@ -272,14 +272,14 @@ def exhaustive_histories(depth):
     return fn
 
 def run_C04(ctx):
-    s, n = sizes(ctx, (6, 250), (40, 600))
+    s, n = sizes(ctx, (6, 250), (300, 1000))
     d = 3 if ctx['tier'] == 'quick' else 4
     correspondence(ctx, [exhaustive_histories(d)], proj_shape, oracle_wf, 'C04 well-formedness', 'exhaustive<=%d' % d, model_is_spec=False, probe_ops=('wf',))
     ctx['cov']['exhaustive_histories'] = {'alphabet': small_alphabet(), 'max_len': d}
     api_correspondence(ctx, ['structure'], s, n, proj_shape, oracle_wf, 'C04 well-formedness', model_is_spec=False, probe_ops=('wf',))
 
 def run_C05(ctx):
-    s, n = sizes(ctx, (6, 250), (40, 600))
+    s, n = sizes(ctx, (6, 250), (300, 1000))
     d = 3 if ctx['tier'] == 'quick' else 4
     correspondence(ctx, [exhaustive_histories(d)], proj_full, None, 'C05 ordered-tree behaviour', 'exhaustive<=%d' % d)
     ctx['cov']['exhaustive_histories'] = {'alphabet': small_alphabet(), 'max_len': d}
@@ -301,7 +301,7 @@ def c06_typed_grid(impl, rng, stats):
                 stats['c06:typed:%s' % k] = stats.get('c06:typed:%s' % k, 0) + 1
 
 def run_C06(ctx):
-    s, n = sizes(ctx, (6, 200), (40, 500))
+    s, n = sizes(ctx, (6, 200), (300, 1000))
     correspondence(ctx, [c06_typed_grid], proj_lookup, oracle_lookup, 'C06 path lookup', 'typed-grid')
     api_correspondence(ctx, ['lookup'], s, n, proj_lookup, oracle_lookup, 'C06 path lookup')
 
@@ -348,17 +348,17 @@ def c07_grid(impl, rng, stats):
         impl.do('dump')
 
 def run_C07(ctx):
-    s, n = sizes(ctx, (4, 250), (40, 800))
+    s, n = sizes(ctx, (4, 250), (300, 1000))
     correspondence(ctx, [c07_grid], proj_convert, oracle_touched, 'C07 typed get/set', 'grid')
     ctx['cov']['exhaustive_grid'] = 'stored type x boundary value pool x set kind x get kind x auto-convert off/on (direct, by-name, by-path, by-index)'
     api_correspondence(ctx, ['convert'], s, n, proj_convert, oracle_touched, 'C07 typed get/set')
 
 def run_C16(ctx):
-    s, n = sizes(ctx, (6, 250), (40, 600))
+    s, n = sizes(ctx, (6, 250), (300, 1000))
     api_correspondence(ctx, ['hooks'], s, n, proj_hooks, None, 'C16 destructor log')
 
 def run_C19(ctx):
-    s, n = sizes(ctx, (5, 200), (30, 500))
+    s, n = sizes(ctx, (5, 200), (300, 800))
     api_correspondence(ctx, ['write'], s, n, proj_write, None, 'C19 writer output')
 
 def proj_read(op, out):
@@ -370,7 +370,7 @@ def proj_read(op, out):
     return None
 
 def run_C02(ctx):
-    L = 6 if ctx['tier'] == 'quick' else 8
+    L = 6 if ctx['tier'] == 'quick' else 9
     seqs = gen_text.enumerate_prefixes(L)
     expect = {}
     chunk = 4000
@@ -387,13 +387,13 @@ def run_C02(ctx):
     ctx['cov']['exhaustive_token_sequences'] = {'max_len': L, 'sequences': len(seqs), 'with_overrides_off_and_on': True}
     # random long valid texts and their mutations
     rng = Rng(ctx['seed'] * 7919 + 2)
-    n = 150 if ctx['tier'] == 'quick' else 2000
+    n = 150 if ctx['tier'] == 'quick' else 20000
     texts = [gen_text.rand_valid_text(rng) for _ in range(n)]
     correspondence(ctx, [streams.sess_texts(texts, ('string',), tag='valid')], proj_read, None, 'C02 grammar conformance', 'random-valid')
 
 def run_C08(ctx):
     rng = Rng(ctx['seed'] * 104729 + 8)
-    n = 1500 if ctx['tier'] == 'quick' else 40000
+    n = 1500 if ctx['tier'] == 'quick' else 300000
     lits = gen_text.numeric_literals(rng, n)
     for i in range(0, len(lits), 5000):
         e = {}
@@ -559,7 +559,7 @@ def proj_lex(op, out):
 
 def run_C18(ctx):
     rng = Rng(ctx['seed'] * 86028121 + 18)
-    n = 3000 if ctx['tier'] == 'quick' else 60000
+    n = 3000 if ctx['tier'] == 'quick' else 400000
     texts = streams.c18_texts(rng, n)
     for i in range(0, len(texts), 10000):
         e = {}
